@@ -37,7 +37,7 @@ def specs_for(ctx):
                 continue
             specs.append({"tissue": tissue, "k": k, "seed": seed, "want": ["C01"], "sim": sim,
                           "build": {"limit": "inf", "fit": fit}, "solve": {"method": method}, "resample": resample,
-                          "require_conditioned": True, "inplace_sim": inplace,
+                          "require_conditioned": True, "inplace_sim": inplace, "align": rng.random() < 0.25,
                           "ids": {"offset": rng.choice([0, 4]), "stride": rng.choice([1, 2]), "vperm": rng.random() < 0.5}})
     return specs
 
